@@ -37,6 +37,9 @@ func (c *CacheConfig) setRestartNeededProps() {
 	c.LockShards.SetRequiresRestart()
 }
 
+// maxLockShards bounds cache.lock_shards (the default is 1024).
+const maxLockShards = 1 << 20
+
 func (c *CacheConfig) verify() error {
 	if c.MaxCacheSize.Read().Bytes() <= 0 {
 		return fmt.Errorf("cache.max_cache_size must be greater than 0")
@@ -49,6 +52,10 @@ func (c *CacheConfig) verify() error {
 	}
 	if c.LockShards.Read() < 1 {
 		return fmt.Errorf("cache.lock_shards must be at least 1")
+	}
+	if c.LockShards.Read() > maxLockShards {
+		// every shard is a lock in a table allocated at start: an absurd count makes the next start die in make()
+		return fmt.Errorf("cache.lock_shards must be at most %d", maxLockShards)
 	}
 	if c.File.Dir.Read() == "" {
 		return fmt.Errorf("cache.file.dir cannot be empty")
